@@ -179,6 +179,10 @@ type HProg struct {
 	// WaitCtx: after the ops, wait for the context to end and return its
 	// error as a status (status.FromContextError).
 	WaitCtx bool `json:"wait_ctx,omitempty"`
+	// ConcurrentMD runs the header/trailer ops in a second goroutine, concurrently with the
+	// sends and receives (race-detector workloads only: what the caller then observes as
+	// headers depends on the schedule).
+	ConcurrentMD bool `json:"concurrent_md,omitempty"`
 }
 
 // ErrObs is a printable, comparable record of an error value.
@@ -253,9 +257,30 @@ func RunHandler(prog HProg, stream grpc.ServerStream, log *HLog) error {
 	log.Deadline, log.HasDeadline = ctx.Deadline()
 	log.mu.Unlock()
 	stop := false
+	var mdDone chan struct{}
+	if prog.ConcurrentMD {
+		mdDone = make(chan struct{})
+		go func() {
+			defer close(mdDone)
+			for _, op := range prog.Ops {
+				switch op.Op {
+				case "sethdr":
+					_ = stream.SetHeader(MDOfOp(op))
+				case "sendhdr":
+					_ = stream.SendHeader(MDOfOp(op))
+				case "settrl":
+					stream.SetTrailer(MDOfOp(op))
+				}
+			}
+		}()
+		defer func() { <-mdDone }()
+	}
 	for _, op := range prog.Ops {
 		if prog.StopOnCtx && (stop || ctx.Err() != nil) {
 			break
+		}
+		if prog.ConcurrentMD && (op.Op == "sethdr" || op.Op == "sendhdr" || op.Op == "settrl") {
+			continue
 		}
 		switch op.Op {
 		case "recv":
